@@ -53,7 +53,17 @@ func init() {
 			return nil
 		},
 		"PermuteMaps": func(fr *frame, args []value) value {
-			fr.i.w.permute = fr.i.w.truth(args[0])
+			if fr.i.w.truth(args[0]) {
+				fr.i.w.permute = 1
+			} else {
+				fr.i.w.permute = 0
+			}
+			return nil
+		},
+		"PermuteOneMap": func(fr *frame, args []value) value {
+			// exactly one of the following map iterations gets a non-canonical order
+			fr.i.w.permute = 2
+			fr.i.w.permDone = false
 			return nil
 		},
 		"Eq":      func(fr *frame, args []value) value { return deepEq(fr.i.w, args[0], args[1], true) },
